@@ -423,6 +423,7 @@ func (obj *Package) Remove(name string) (removed bool) {
 		for _, u := range obj.Users {
 			if vv := u.vars[name]; vv != nil && vv.Pkg == obj {
 				delete(u.vars, name)
+				u.inheritVar(name, obj)
 			}
 		}
 		if xv.Pkg == obj {
@@ -544,6 +545,7 @@ func (obj *Package) Unexport(name string) {
 				u.mu.Lock()
 				if xf := u.funcs[name]; xf != nil && obj == xf.Pkg {
 					delete(u.funcs, name)
+					u.inheritFunc(name, obj)
 				}
 				u.mu.Unlock()
 			}
@@ -556,6 +558,7 @@ func (obj *Package) Unexport(name string) {
 				u.mu.Lock()
 				if xv := u.vars[name]; xv != nil && obj == xv.Pkg {
 					delete(u.vars, name)
+					u.inheritVar(name, obj)
 				}
 				u.mu.Unlock()
 			}
@@ -592,6 +595,34 @@ func (obj *Package) passFuncToUsers(name string, fi *FuncInfo) {
 	}
 }
 
+// inheritVar gives the package, which just lost the variable it had from the
+// except package, the variable another package it uses exports under that
+// name.
+func (obj *Package) inheritVar(name string, except *Package) {
+	for _, p := range obj.Uses {
+		if p != except {
+			if vv := p.vars[name]; vv != nil && vv.Export {
+				obj.vars[name] = vv
+				return
+			}
+		}
+	}
+}
+
+// inheritFunc gives the package, which just lost the function it had from
+// the except package, the function another package it uses exports under
+// that name.
+func (obj *Package) inheritFunc(name string, except *Package) {
+	for _, p := range obj.Uses {
+		if p != except {
+			if fi := p.funcs[name]; fi != nil && fi.Export {
+				obj.funcs[name] = fi
+				return
+			}
+		}
+	}
+}
+
 // exports returns true if the name has been exported with a call to Export.
 func (obj *Package) exports(name string) bool {
 	for _, x := range obj.Exports {
@@ -614,6 +645,7 @@ func (obj *Package) Undefine(name string) {
 				u.mu.Lock()
 				if u.funcs[name] == fi {
 					delete(u.funcs, name)
+					u.inheritFunc(name, obj)
 				}
 				u.mu.Unlock()
 			}
